@@ -112,6 +112,22 @@ theorem renumber_conjugates (sem : Op → M)
   exact relabel_circuit_den sem hcomm act h1 hmul _
     (permFun_injective _ perm hlen hnd' hrange) hsem c _ hinv hinv'
 
+/-- **insert_qudit conjugates the unitary** (the branch that shifts the qudits from `k` on) -/
+theorem insertQudit_conjugates (sem : Op → M)
+    (hcomm : ∀ a b, Indep a b → sem a * sem b = sem b * sem a) (act : M → M) (h1 : act 1 = 1)
+    (hmul : ∀ a b, act (a * b) = act a * act b) (c : Circ) (qi r : Int) (hinv : c.Inv)
+    (hr : ¬ r < 2) (hq : ¬ qi ≥ (c.numQudits : Int))
+    (hsem : ∀ o, sem (o.relabel (fun q =>
+      if q < (if qi ≤ -(c.numQudits : Int) then 0 else normIdx c.numQudits qi) then q else q + 1)) =
+        act (sem o)) :
+    den sem (c.insertQudit qi r).1.iter = act (den sem c.iter) := by
+  have hinv' := insertQudit_inv c qi r hinv
+  unfold Circ.insertQudit at hinv' ⊢
+  rw [if_neg hr, if_neg hq] at hinv' ⊢
+  generalize (if qi ≤ -(c.numQudits : Int) then 0 else normIdx c.numQudits qi) = k at hinv' hsem ⊢
+  exact relabel_circuit_den sem hcomm act h1 hmul _
+    (fun a b h => by split at h <;> split at h <;> omega) hsem c _ hinv hinv'
+
 /-! ## S3: blocks -/
 /-- **list level**: replacing a block operation by its expansion (body in iteration order,
 parameters distributed, relabelled through the block's location) keeps the denotation, in any
